@@ -237,11 +237,24 @@ def mergeBack (cfg : Cfg) (o : Own) (k : CK) (links : List (Option Ref)) (rins :
                    inRefs := if k = .macro then o.inRefs else o.inRefs.map fun _ => none,
                    outRefs := if k = .macro then o.outRefs else [] } k links kids
 
+mutual
+/-- no static-IO composite whose channels belong to a discarded copy: such a node drags the emptied copy along
+when it is pickled, and that copy's value links name children it no longer has (`KeyError` on loading) -/
+def huskFree : Node → Bool
+  | .fn _ _ => true
+  | .comp o k _ ks => (o.ioMine || k == .wf) && huskFreeKids ks
+def huskFreeKids : List Node → Bool
+  | [] => true
+  | n :: ns => huskFree n && huskFreeKids ns
+end
+
 /-- the done-callback of a composite that ran as a copy: the exception travels through the future and the
-local children stay as they were, or the returned copy is merged -/
+local children stay as they were, or the returned copy is merged.  With the adopting merge a copy that itself
+merged a by-value child cannot be sent back. -/
 def mergeOrFail (cfg : Cfg) (o : Own) (k : CK) (links : List (Option Ref)) (kids : List Node)
     (rins : List Val) (rout : Val) (st : KS) : Node :=
-  if st.err then .comp { o with failed := true, running := false } k links kids
+  if st.err || (!cfg.keepIO && !huskFreeKids st.pre) then
+    .comp { o with failed := true, running := false } k links kids
   else mergeBack cfg o k links rins (st.out.getD rout) (rewireAll st.bumps st.pre)
 
 /-- bookkeeping after one child of a running composite was handled -/
@@ -396,6 +409,7 @@ inductive Edit
   | connect (k : Nat) (v : Val)      -- connect input k to a neighbour's output holding `v`
   | disconnect (k : Nat)
   | rerun                            -- `node.run()` while it is out
+  | setKid (j k : Nat) (v : Val)     -- `wf.inputs.nJ__k = v`: a workflow's inputs are its children's channels
   deriving Repr
 
 inductive Res | ok | future | locked | readiness | raised | notOut
@@ -483,6 +497,16 @@ def edit (s : Sess) : Edit → Sess × Res
     else
       let n1 := fetchTop s.ext s.node.own.ins.length s.node
       ({ s with node := n1 }, .readiness)   -- only used while the node is out: `running` refuses the run
+
+  | .setKid j k v =>
+    match s.node with
+    | .comp o .wf l ks =>
+      match ks[j]? with
+      | some kid =>
+        if kid.own.ioMine && kid.own.running then (s, .locked)
+        else ({ s with node := .comp o .wf l (assignKid ⟨j, kid.own.gen, k⟩ v 0 ks) }, .ok)
+      | none => (s, .raised)
+    | _ => (s, .raised)                -- static IO panels do not expose child channels
 
 def edits (s : Sess) : List Edit → Sess
   | [] => s
